@@ -71,6 +71,8 @@ JudgeValue(dt, e, payload, prev) ==
             ELSE IF ~e.real_ok THEN "rebuilt.disagrees"
             ELSE ""
 
+ConstNames(desc, req) == {w \in DOMAIN desc[req.mod] : /\ desc[req.mod][w].kind = "param" /\ desc[req.mod][w].const # Null
+                                                       /\ (req.name = "" \/ req.name = w)}
 (* "describe <module>" / "describe <module>:<accessible>": the part of the structure report, *)
 (* for described names only; e.same: the reply is identical to that part of the full report   *)
 JudgeDescribe(desc, e) ==
@@ -84,7 +86,13 @@ Judge(desc, e) ==
   IF req.act = "describe" THEN JudgeDescribe(desc, e)
   ELSE IF ~Known(desc, req) THEN (IF e.cls \in NoSuch THEN "" ELSE "undescribed.reachable")
   ELSE IF req.act = "activate"
-       THEN (IF e.cls \in NoSuch /\ (req.name = "" \/ desc[req.mod][req.name].kind = "param") THEN "described.unreachable" ELSE "")
+       THEN IF e.cls \in NoSuch /\ (req.name = "" \/ desc[req.mod][req.name].kind = "param") THEN "described.unreachable"
+            \* the snapshot an activate delivers shows every constant concerned, as described, never as an error
+            ELSE IF e.cls = "ok" /\ \E w \in ConstNames(desc, req) :
+                       ~\E i \in 1 .. Len(e.upd) : /\ e.upd[i].mod = req.mod /\ e.upd[i].name = w
+                                                     /\ ~e.upd[i].err /\ e.upd[i].v = desc[req.mod][w].const
+                 THEN "constant.snapshot"
+            ELSE ""
   ELSE LET d == desc[req.mod][DName(req)] IN
     CASE req.act = "read" ->
            IF e.cls \in NoSuch THEN "described.unreachable"
@@ -113,8 +121,11 @@ JudgeUpdates(desc, e) ==
         ~(e.upd[i].mod \in DOMAIN desc /\ e.upd[i].name \in DOMAIN desc[e.upd[i].mod]
           /\ desc[e.upd[i].mod][e.upd[i].name].kind = "param")
   THEN "update.undescribed"
+  ELSE IF \E i \in 1 .. Len(e.upd) :      \* whatever is announced for a constant is the described constant
+        LET dd == desc[e.upd[i].mod][e.upd[i].name] IN dd.const # Null /\ (e.upd[i].err \/ e.upd[i].v # dd.const)
+  THEN "constant.snapshot"
   ELSE IF \E i \in 1 .. Len(e.upd) :
-        ~(e.upd[i].imp /\ Importable(desc[e.upd[i].mod][e.upd[i].name].dt, e.upd[i].v))
+        ~e.upd[i].err /\ ~(e.upd[i].imp /\ Importable(desc[e.upd[i].mod][e.upd[i].name].dt, e.upd[i].v))
   THEN "update.importable"
   ELSE ""
 
@@ -166,6 +177,8 @@ Structure(d) ==
   ELSE ""
 
 (* ---- design-level theorem: Dispatch honours Described(shape) ---- *)
+RECURSIVE SetSeq(_)
+SetSeq(S) == IF S = {} THEN <<>> ELSE LET x == CHOOSE y \in S : TRUE IN <<x>> \o SetSeq(S \ {x})
 TargetAcc(req) == shape[req.mod][CHOOSE a \in DOMAIN shape[req.mod] : shape[req.mod][a].wire = DName(req)]
 IsKnown(req) == req.act # "none" /\ Known(Described(shape), req)
 EventsOf(c, o) ==
@@ -179,8 +192,10 @@ EventsOf(c, o) ==
        value |-> IF o.reply.ok THEN o.reply.v ELSE Null,
        real_ok |-> IF known /\ dt # NoDt /\ ~(req.act = "do" /\ req.payload = Null) THEN Validate(dt, req.payload, prev).ok ELSE TRUE,
        imp |-> TRUE,
-       strict |-> isp /\ acc.hooks = <<>> /\ acc.lim.kind = "none" /\ acc.drv # "raise" /\ acc.dt.t # "limits"]
+       strict |-> isp /\ acc.hooks = <<>> /\ acc.lim.kind = "none" /\ acc.drv # "raise" /\ acc.dt.t # "limits",
+       upd |-> IF o.snap = Null THEN <<>>
+               ELSE SetSeq({[mod |-> u.mod, name |-> u.name, v |-> u.v, imp |-> TRUE, err |-> FALSE] : u \in o.snap})]
       : k \in (IF o.reply.ok THEN {"ok"} ELSE o.reply.cls)}
 DescriptionTrue ==
-  [][\A e \in EventsOf(cache, last') : Judge(Described(shape), e) = ""]_vars
+  [][\A e \in EventsOf(cache, last') : Judge(Described(shape), e) = "" /\ JudgeUpdates(Described(shape), e) = ""]_vars
 =============================================================================
